@@ -188,9 +188,9 @@ C["C11"] = {
 C["C08"] = {
  "pkgs": ["."],
  "technique": "bounded symbolic execution of processPublish/processPubrel for 1..3 transmissions of the same QoS 2 PUBLISH, symbolic packet id; subscriber and publisher transcripts parsed by the reference decoder",
- "quick": {"harnesses": [H("VerifC08Once", VER=5, RETX=2), H("VerifC08Once", VER=4, RETX=2), H("VerifC08Reconnect", VER=5, RETX=1), H("VerifC08Reconnect", VER=4, RETX=1)], "budget_s": 200, "witnesses": 6,
-   "bounds": "1..3 transmissions before PUBREL, any 16-bit id, one subscriber"},
- "thorough": {"harnesses": [H("VerifC08Once", VER=5, RETX=4), H("VerifC08Once", VER=4, RETX=4), H("VerifC08Reconnect", VER=5, RETX=3), H("VerifC08Reconnect", VER=4, RETX=3)], "budget_s": 600, "witnesses": 12, "bounds": "1..5 transmissions"},
+ "quick": {"harnesses": [H("VerifC08Once", VER=5, RETX=2), H("VerifC08Once", VER=4, RETX=2), H("VerifC08Reconnect", VER=5, RETX=1), H("VerifC08Reconnect", VER=4, RETX=1), H("VerifC08Once", VER=5, RETX=2, OWN=1)], "budget_s": 200, "witnesses": 6,
+   "bounds": "1..3 transmissions before PUBREL, any 16-bit id, one subscriber; also with the publisher subscribed to its own topic at QoS 1 (broker-allocated ids towards the same client)"},
+ "thorough": {"harnesses": [H("VerifC08Once", VER=5, RETX=4), H("VerifC08Once", VER=4, RETX=4), H("VerifC08Reconnect", VER=5, RETX=3), H("VerifC08Reconnect", VER=4, RETX=3), H("VerifC08Once", VER=5, RETX=3, OWN=1)], "budget_s": 600, "witnesses": 12, "bounds": "1..5 transmissions"},
  "outside_bounds": ["more than one reconnect", "several QoS 2 exchanges interleaved"],
  "stubs": SRV_STUBS, "trusted_base": SRV_TB,
 }
@@ -209,9 +209,9 @@ C["C04"] = {
 C["C05"] = {
  "pkgs": ["."],
  "technique": "bounded symbolic execution of processPublish->retainMessage and processSubscribe->publishRetainedToClient over solver-chosen publish histories, against a last-writer-wins model",
- "quick": {"harnesses": [H("VerifC05Retained", H=2), H("VerifC05Retained", H=2, NEST=1)], "budget_s": 300, "witnesses": 8, "perm_limit": 3,
-   "bounds": "2 publishes to two topics (retain flag, empty/non-empty payload symbolic), RetainAvailable 0/1, then SUBSCRIBE a/+ with Retain Handling 0..2, shared or not, first-time or repeated, with or without subscription identifier"},
- "thorough": {"harnesses": [H("VerifC05Retained", H=4), H("VerifC05Retained", H=3, NEST=1)], "budget_s": 1800, "witnesses": 16, "perm_limit": 3, "bounds": "as quick with 4 publishes"},
+ "quick": {"harnesses": [H("VerifC05Retained", H=2), H("VerifC05Retained", H=2, NEST=1), H("VerifC16Will", PERM=1)], "budget_s": 300, "witnesses": 8, "perm_limit": 3,
+   "bounds": "2 publishes to two topics (retain flag, empty/non-empty payload symbolic), RetainAvailable 0/1, then SUBSCRIBE a/+ with Retain Handling 0..2, shared or not, first-time or repeated, with or without subscription identifier; retained wills (C16's scenarios: the store holds a will only once it has been published)"},
+ "thorough": {"harnesses": [H("VerifC05Retained", H=4), H("VerifC05Retained", H=3, NEST=1), H("VerifC16Will", PERM=1)], "budget_s": 1800, "witnesses": 16, "perm_limit": 3, "bounds": "as quick with 4 publishes"},
  "outside_bounds": ["more than two retained topics", "message expiry (C25)"],
  "stubs": SRV_STUBS, "trusted_base": SRV_TB,
 }
@@ -250,9 +250,9 @@ C["C09"] = {
 C["C24"] = {
  "pkgs": ["."],
  "technique": "bounded symbolic execution of publishToClient/OutboundTopicAliases.Set with drops and deferrals as solver choices, and of processPublish/InboundTopicAliases.Set; alias bindings tracked on the wire by the reference decoder",
- "quick": {"harnesses": [H("VerifC24Outbound", MSGS=2), H("VerifC24Resend"), H("VerifC24Inbound", MSGS=2)], "budget_s": 400, "witnesses": 8, "perm_limit": 1,
+ "quick": {"harnesses": [H("VerifC24Outbound", MSGS=2), H("VerifC24Resend"), H("VerifC24Inbound", MSGS=2), H("VerifC24AfterResume")], "budget_s": 400, "witnesses": 8, "perm_limit": 1,
    "bounds": "outbound: client Topic Alias Maximum 0..2, Receive Maximum 1..2, outbound queue capacity 1..2, 2 messages on topics from {x,y,z} with QoS 0/1, write loop catching up or not after each; resend after reconnect with the first message acknowledged or not; inbound: broker maximum 0..2, 2 publishes with alias 0..3 and topic from {'',x,y}"},
- "thorough": {"harnesses": [H("VerifC24Outbound", MSGS=3), H("VerifC24Resend"), H("VerifC24Inbound", MSGS=3)], "budget_s": 2400, "witnesses": 16, "perm_limit": 1, "bounds": "as quick with 3 messages"},
+ "thorough": {"harnesses": [H("VerifC24Outbound", MSGS=3), H("VerifC24Resend"), H("VerifC24Inbound", MSGS=3), H("VerifC24AfterResume")], "budget_s": 2400, "witnesses": 16, "perm_limit": 1, "bounds": "as quick with 3 messages"},
  "outside_bounds": ["alias maxima above 2", "longer sequences"],
  "stubs": SRV_STUBS, "trusted_base": SRV_TB,
 }
@@ -270,11 +270,11 @@ C["C25"] = {
 LIVE = ["connections are live scripted net.Conn objects; each connection handler (the real EstablishConnection/attachClient with its WriteLoop goroutine) runs as an interpreted goroutine, scheduled cooperatively: a goroutine runs until it blocks (conn read, channel, lock, WaitGroup) and every choice among runnable goroutines is an engine decision explored exhaustively"]
 # ---------------- C13 ----------------
 C["C13"] = {
- "pkgs": ["."],
+ "pkgs": [".", "./listeners"],
  "technique": "bounded symbolic execution of the real connection handler (attachClient end to end, WriteLoop goroutine included) on a scripted connection whose first packet is a CONNECT with symbolic flags/version/name or a non-CONNECT; transcript parsed by the reference decoder",
- "quick": {"harnesses": [H("VerifC13Attach")], "budget_s": 400, "witnesses": 8, "perm_limit": 1,
+ "quick": {"harnesses": [H("VerifC13Attach"), H("VerifC36Shutdown", STAGE=0, PREEMPT=0, SCHED=1)], "budget_s": 400, "witnesses": 8, "perm_limit": 1,
    "bounds": "0..2 authentication hooks with symbolic verdicts; first packet: CONNECT (protocol name in {MQTT, MQIsdp, other}, version 3..6, clean, reserved bit, will flag/QoS 0..3/retain/payload present or not, username, password present/empty, client id empty or not), PINGREQ, or an arbitrary 2-byte header"},
- "thorough": {"harnesses": [H("VerifC13Attach")], "budget_s": 900, "witnesses": 24, "perm_limit": 1, "bounds": "as quick"},
+ "thorough": {"harnesses": [H("VerifC13Attach"), H("VerifC36Shutdown", STAGE=0, PREEMPT=1, SCHED=1)], "budget_s": 900, "witnesses": 24, "perm_limit": 1, "bounds": "as quick"},
  "outside_bounds": ["a concurrent publisher racing the resumed session's CONNACK (schedule half of the statement: 'nothing else reaches the client before it'); only the sequential order is decided", "CONNECT properties other than none"],
  "stubs": SRV_STUBS + LIVE, "trusted_base": SRV_TB + ["reference CONNECT validity predicate in the harness (MQTT 3.1.2)"],
 }
@@ -292,9 +292,9 @@ C["C14"] = {
 C["C15"] = {
  "pkgs": ["."],
  "technique": "symbolic execution of the connection handler tail, clearExpiredClients, processDisconnect with intervals, server maximum and housekeeping times as solver variables",
- "quick": {"harnesses": [H("VerifC15Expiry"), H("VerifC15DisconnectInterval")], "budget_s": 300, "witnesses": 8, "perm_limit": 1,
+ "quick": {"harnesses": [H("VerifC15Expiry"), H("VerifC15DisconnectInterval"), H("VerifC15Generations", PERM=1)], "budget_s": 300, "witnesses": 8, "perm_limit": 1,
    "bounds": "protocol 4/5, Clean, session expiry interval present or not and symbolic < 2^20, server maximum symbolic < 2^20, housekeeping time symbolic up to 2^21 s later; one subscription; DISCONNECT with a symbolic new interval"},
- "thorough": {"harnesses": [H("VerifC15Expiry"), H("VerifC15DisconnectInterval")], "budget_s": 600, "witnesses": 16, "perm_limit": 1, "bounds": "as quick"},
+ "thorough": {"harnesses": [H("VerifC15Expiry"), H("VerifC15DisconnectInterval"), H("VerifC15Generations", PERM=1)], "budget_s": 600, "witnesses": 16, "perm_limit": 1, "bounds": "as quick"},
  "outside_bounds": ["the boundary second dt == disconnect+interval+1 is tolerated both ways ('once elapsed')", "intervals >= 2^20"],
  "stubs": SRV_STUBS + LIVE, "trusted_base": SRV_TB,
 }
@@ -313,9 +313,9 @@ C["C16"] = {
 C["C03"] = {
  "pkgs": ["."],
  "technique": "bounded symbolic execution of solver-chosen histories through the real SUBSCRIBE/UNSUBSCRIBE/PUBLISH handlers, trie and publishToClient against a set model with reference matching, ACL table and No Local",
- "quick": {"harnesses": [H("VerifC03History", STEPS=3), H("VerifC03Pruning")], "budget_s": 400, "witnesses": 8, "perm_limit": 2,
+ "quick": {"harnesses": [H("VerifC03History", STEPS=3), H("VerifC03Pruning"), H("VerifC03Resubscribe", PERM=1)], "budget_s": 400, "witnesses": 8, "perm_limit": 2,
    "bounds": "2 clients (publisher A v5, subscriber B v4/v5), every history of 3 steps among {subscribe(client, filter in {a/b, a/+, #, x}, No Local), unsubscribe, publish a/b with payload + content type + response topic + correlation data + user property, B disconnects}; read ACL verdict for (B, a/b) symbolic"},
- "thorough": {"harnesses": [H("VerifC03History", STEPS=4), H("VerifC03Pruning")], "budget_s": 3000, "witnesses": 16, "perm_limit": 2, "bounds": "as quick with histories of 4 steps"},
+ "thorough": {"harnesses": [H("VerifC03History", STEPS=4), H("VerifC03Pruning"), H("VerifC03Resubscribe", PERM=1)], "budget_s": 3000, "witnesses": 16, "perm_limit": 2, "bounds": "as quick with histories of 4 steps"},
  "outside_bounds": ["bytes on the wire after a concurrent WriteLoop (the harness drains the queue through the real WritePacket)", "true concurrency between publishers", "longer histories, more clients", "the reported-drop paths (queue full etc.) are C34's"],
  "stubs": SRV_STUBS, "trusted_base": SRV_TB + ["set model of subscriptions in the harness"],
 }
@@ -343,9 +343,9 @@ C["C19"] = {
 C["C23"] = {
  "pkgs": ["."],
  "technique": "every transcript produced by the symbolically executed connection handler and request handlers is parsed by a strict reference decoder written from the MQTT 3.1.1/5.0 specifications; well-formedness, version and size obligations are SMT queries over the symbolic bytes",
- "quick": {"harnesses": [H("VerifC13Attach", WF=1), H("VerifC14Takeover", WF=1), H("VerifC07Request", WF=1, VER=5), H("VerifC07Request", WF=1, VER=4), H("VerifC23MaxSize", PAYLOAD=24), H("VerifC23SubackV3"), H("VerifC23DisconnectV3"), H("VerifC09Redeliver", WF=1, MSGS=2, ACKS=2, RECON=1)], "budget_s": 600, "witnesses": 4, "perm_limit": 1,
+ "quick": {"harnesses": [H("VerifC13Attach", WF=1), H("VerifC14Takeover", WF=1), H("VerifC07Request", WF=1, VER=5), H("VerifC07Request", WF=1, VER=4), H("VerifC23MaxSize", PAYLOAD=24), H("VerifC23SubackV3"), H("VerifC23DisconnectV3"), H("VerifC09Redeliver", WF=1, MSGS=2, ACKS=2, RECON=1), H("VerifC23ProblemInfo")], "budget_s": 600, "witnesses": 4, "perm_limit": 1,
    "bounds": "all CONNECT variants of C13, the takeover scenarios of C14, the requests of C07; client Maximum Packet Size symbolic 1..40 with payload 0..24 bytes and optional user property; SUBSCRIBE/UNSUBSCRIBE failure paths for protocol 3/4/5; broker-initiated disconnects"},
- "thorough": {"harnesses": [H("VerifC13Attach", WF=1), H("VerifC14Takeover", WF=1), H("VerifC16Will"), H("VerifC07Request", WF=1, VER=5), H("VerifC07Request", WF=1, VER=4), H("VerifC07Request", WF=1, VER=3), H("VerifC23MaxSize", PAYLOAD=40), H("VerifC23SubackV3"), H("VerifC23DisconnectV3"), H("VerifC09Redeliver", WF=1, MSGS=2, ACKS=2, RECON=2)], "budget_s": 1800, "witnesses": 8, "perm_limit": 1, "bounds": "as quick, payload up to 40 bytes"},
+ "thorough": {"harnesses": [H("VerifC13Attach", WF=1), H("VerifC14Takeover", WF=1), H("VerifC16Will"), H("VerifC07Request", WF=1, VER=5), H("VerifC07Request", WF=1, VER=4), H("VerifC07Request", WF=1, VER=3), H("VerifC23MaxSize", PAYLOAD=40), H("VerifC23SubackV3"), H("VerifC23DisconnectV3"), H("VerifC09Redeliver", WF=1, MSGS=2, ACKS=2, RECON=2), H("VerifC23ProblemInfo")], "budget_s": 1800, "witnesses": 8, "perm_limit": 1, "bounds": "as quick, payload up to 40 bytes"},
  "outside_bounds": ["interleaving of bytes from concurrent writers (WritePacket serialises under the client lock; true parallelism is not modelled)", "packets the encoded handlers cannot emit", "problem/response-information suppression (asserted by the codec check C26 through Mods)"],
  "stubs": SRV_STUBS + LIVE, "trusted_base": SRV_TB,
 }
@@ -409,9 +409,9 @@ C["C28"] = {
 C["C31"] = {
  "pkgs": ["."],
  "technique": "bounded exploration by the engine of operation histories on the real trie against a set/map model (refinement after every step), symbolic final queries decided by the solver, and interleavings of one mutator with one reader at every lock operation within a pre-emption bound (linearizability of the pair)",
- "quick": {"harnesses": [H("VerifC31Sequential", STEPS=2), H("VerifC31Sequential", STEPS=1, ANY=1, T=2, F=2), H("VerifC31Concurrent", PREEMPT=1, PERM=1)], "budget_s": 600, "witnesses": 6, "perm_limit": 2,
+ "quick": {"harnesses": [H("VerifC31Sequential", STEPS=2), H("VerifC31Sequential", STEPS=1, ANY=1, T=2, F=2), H("VerifC31Concurrent", PREEMPT=1, PERM=1), H("VerifC31Writers", PREEMPT=1, PERM=1)], "budget_s": 600, "witnesses": 6, "perm_limit": 2,
    "bounds": "histories of 2 operations among Subscribe/Unsubscribe/InlineSubscribe/InlineUnsubscribe/RetainMessage set/clear over 2 clients, filters {a, a/b, a/+, a/#, $share/g/a/b}, topics {a, a/b, a/b/c}; after 1 operation additionally every topic of 1..3 bytes and every valid filter of 1..3 bytes (symbolic); concurrent: one mutator goroutine vs one reader goroutine, <= 1 pre-emption at lock operations"},
- "thorough": {"harnesses": [H("VerifC31Sequential", STEPS=3, T=2, F=2), H("VerifC31Sequential", STEPS=2, ANY=1, T=2, F=2), H("VerifC31Concurrent", PREEMPT=2, PERM=1)], "budget_s": 5400, "witnesses": 12, "perm_limit": 2, "bounds": "histories of 3 operations over topics of <= 2 levels and filters of <= 2 levels (3 operations over 3-level names did not finish in 3600 s on a loaded machine and is not claimed); <= 2 pre-emptions"},
+ "thorough": {"harnesses": [H("VerifC31Sequential", STEPS=3, T=2, F=2), H("VerifC31Sequential", STEPS=2, ANY=1, T=2, F=2), H("VerifC31Concurrent", PREEMPT=2, PERM=1), H("VerifC31Writers", PREEMPT=2, PERM=1)], "budget_s": 5400, "witnesses": 12, "perm_limit": 2, "bounds": "histories of 3 operations over topics of <= 2 levels and filters of <= 2 levels (3 operations over 3-level names did not finish in 3600 s on a loaded machine and is not claimed); <= 2 pre-emptions"},
  "outside_bounds": ["more than two goroutines", "interleavings below lock granularity (data-race freedom is assumed: C33 is not decided)", "longer histories"],
  "stubs": ["sync.RWMutex: lock tracker with blocking semantics between interpreted goroutines"],
  "trusted_base": ENGINE_TB + ["set/map model and refMatch in the harness"],
@@ -463,16 +463,16 @@ BACKENDS = ["bolt", "badger", "pebble", "redis"]
 ST_PKGS = ["./hooks/storage/" + b for b in BACKENDS]
 ST_STUBS = SRV_STUBS + LIVE + [
  "storage engines: badger, pebble, bbolt and go-redis are replaced at their ~30 call sites (Txn.Set/Delete/Get, iterators, Bucket.Put/Delete/Get/Cursor, DB.Set/Delete/Get/NewIter, HSet/HDel/HGet/HGetAll) by an abstract ordered key->record map with a write log",
- "encoding/json: replaced at the four MarshalBinary/UnmarshalBinary pairs of hooks/storage by a record copy (assumption: JSON round-trips the tagged fields)",
+ "encoding/json: replaced at the four MarshalBinary/UnmarshalBinary pairs of hooks/storage by a record copy that honours the json tags: an `omitempty` field that is empty is absent and leaves the destination field as it was (assumption: JSON round-trips the tagged fields)",
  "Hook.Init (opening the database) is not executed; the harness builds the hook with a placeholder handle"]
 def st(h, **kw):
     return [H(h, pkg="./hooks/storage/" + b, **kw) for b in BACKENDS]
 C["C20"] = {
  "pkgs": ST_PKGS + ["."],
  "technique": "bounded symbolic execution of the real storage hooks of all four back ends and of the server's restore path (readStore, load*) above an abstract key->record map: field fidelity with symbolic records, key injectivity with symbolic identifiers, restart equivalence through the real connection handler",
- "quick": {"harnesses": st("VerifC20Fields") + st("VerifC20Keys") + st("VerifC20KeysClients") + st("VerifC20Restart") + st("VerifC20Resume"), "budget_s": 600, "witnesses": 2, "perm_limit": 1,
+ "quick": {"harnesses": st("VerifC20Fields") + st("VerifC20Keys") + st("VerifC20KeysClients") + st("VerifC20Restart") + st("VerifC20Resume") + st("VerifC20Independent"), "budget_s": 600, "witnesses": 2, "perm_limit": 1,
    "bounds": "per back end: one client record with symbolic expiry settings/limits/will, one subscription with all options symbolic, one retained and one in-flight message with symbolic ids, times, properties; two (client id, filter) pairs and two client ids/topics of 1..3 bytes over {: _ / a}; restart after connect + subscribe + retained publish + one unacknowledged QoS 1 delivery (protocol 4/5); restart after a session resume (takeover or reconnect) with any subset of {outbound QoS 2 at PUBLISH or PUBREL stage, outbound QoS 1, inbound QoS 2 awaiting PUBREL} in flight"},
- "thorough": {"harnesses": st("VerifC20Fields") + st("VerifC20Keys") + st("VerifC20KeysClients") + st("VerifC20Restart") + st("VerifC20Resume"), "budget_s": 1800, "witnesses": 4, "perm_limit": 2, "bounds": "as quick with map orders up to 2"},
+ "thorough": {"harnesses": st("VerifC20Fields") + st("VerifC20Keys") + st("VerifC20KeysClients") + st("VerifC20Restart") + st("VerifC20Resume") + st("VerifC20Independent"), "budget_s": 1800, "witnesses": 4, "perm_limit": 2, "bounds": "as quick with map orders up to 2"},
  "outside_bounds": ["the storage engines themselves and the JSON codec (stubbed: an LSM tree or a redis server is not a bounded arithmetic kernel)", "longer histories before the restart", "identifiers longer than 3 bytes"],
  "stubs": ST_STUBS, "trusted_base": SRV_TB,
 }
